@@ -638,6 +638,13 @@ func (s *Store) Open() (retErr error) {
 		if !fsutil.PathExists(s.cleanSnapshotPath) {
 			return nil
 		}
+		if fsutil.PathExists(s.peersPath) {
+			// Node recovery is requested. Recovery replaces the snapshots and log with
+			// a single new snapshot, which must then be restored on start. The existing
+			// SQLite file only reflects the state as of the last snapshot, not any log
+			// entries after it, so it cannot be used in place of that restore.
+			return nil
+		}
 		fp := &FileFingerprint{}
 		if err := fp.ReadFromFile(s.cleanSnapshotPath); err != nil {
 			s.logger.Printf("failed to read clean snapshot (%s), performing full restore", err)
